@@ -593,14 +593,15 @@ theorem itemsTicks_repeat (pf : Timeline.Platform) (k : Nat) (l : List Item) :
 
 section
 variable (nS nM : Nat) (pf : Timeline.Platform) (m : List (Int × Nat)) (seq : List Nat) (base mj : Nat)
-  (call : Nat → Nat → Except SErr (List Item))
+  (call : Nat → Nat → Except SErr (List Item)) (Q : Event → Prop)
 
-/-- what is known about the calls: a call to a track whose expansion is `its`, registered in the
+/-- what is known about the calls (`Q` = what is known about a call event, e.g. that its target has no
+loop point): a call to a track whose expansion is `its`, registered in the
 subroutine map under index `k`, finds through slot `k` of the pointer table a stream that plays —
 up to masking — the ticks of `its`, and returns -/
 def CallH : Prop :=
-  ∀ (d : Nat) (e : Event) (its : List Item) (k : Nat), e.kind = .jump →
-    call d (trackIdOfParam e.param) = .ok its → (subKey e.param false false, k) ∈ m →
+  ∀ (d : Nat) (e : Event) (its : List Item) (k : Nat), e.kind = .jump → Q e →
+    call d (trackIdOfParam e.param) = .ok its → (subKey e.param false false, k) ∈ m → Mds.u16 (k : Int) < 256 →
     ∃ T, (∃ t, slotTarget seq base (Mds.u16 (k : Int) % 256) = some t ∧ SubPlays seq base mj t T) ∧
       mk T = itemsTicks pf its
 
@@ -651,9 +652,9 @@ theorem SemOK.leaves {items : List Item} {r r' : Nat} (ms : List MEv) (hl : ∀ 
 /-- the events of a track piece: in the plain fragment, with front-end timing, no loop point, loop
 counts in a byte -/
 def EvOK (e : Event) : Prop :=
-  SimpleEv e ∧ Timed e ∧ e.kind ≠ .segno ∧ (e.type = ev_LOOP_END → 0 ≤ e.param ∧ e.param ≤ 255)
+  SimpleEv e ∧ Timed e ∧ e.kind ≠ .segno ∧ (e.type = ev_LOOP_END → 0 ≤ e.param ∧ e.param ≤ 255) ∧ (e.kind = .jump → Q e)
 
-theorem EvOK.timeless {e : Event} (h : EvOK e) (h1 : e.type ≠ ev_NOTE) (h2 : e.type ≠ ev_TIE) (h3 : e.type ≠ ev_REST) :
+theorem EvOK.timeless {Q : Event → Prop} {e : Event} (h : EvOK Q e) (h1 : e.type ≠ ev_NOTE) (h2 : e.type ≠ ev_TIE) (h3 : e.type ≠ ev_REST) :
     e.on = 0 ∧ e.off = 0 := ⟨h.2.1.2.2.1 h1 h2, h.2.1.2.2.2.1 h1 h2 h3⟩
 
 def isBrk : Tree.Node → Bool
@@ -721,14 +722,15 @@ theorem or_segno_false {g : Bool} {e : Event} (h : e.kind ≠ .segno) : (g || (t
 
 set_option maxRecDepth 8192 in
 mutual
-theorem semN (hH : CallH pf m seq base mj call) (n : Tree.Node) (hcl : Node.closed n) (hev : ∀ e ∈ flattenN n, EvOK e)
+theorem semN (hH : CallH pf m seq base mj call Q) (n : Tree.Node) (hcl : Node.closed n) (hev : ∀ e ∈ flattenN n, EvOK Q e)
     (d : Nat) (il : Bool) (items : List Item) (hexp : Expand.expN call d il n = .ok items)
     (r : Nat) (g : Bool) (ms : List MEv) (r' : Nat) (g' : Bool) (hr : r < 65536)
-    (hem : Emits m r g ((flattenN n).map fun e => tItem e e) ms r' g') :
+    (hem : Emits m r g ((flattenN n).map fun e => tItem e e) ms r' g')
+    (hfit : ∀ ev ∈ ms, ev.type = mds_PAT → ev.arg < 256) :
     SemOK nS nM pf seq base mj (isBrk n) items r ms r' ∧ r' < 65536 ∧ g' = g := by
   match n, hcl, hev, hexp, hem with
   | .ev e, hcl, hev, hexp, hem =>
-    have he : EvOK e := hev e (by simp [flattenN])
+    have he : EvOK Q e := hev e (by simp [flattenN])
     simp only [flattenN, List.map_cons, List.map_nil] at hem
     obtain ⟨b, ms', hb, he', rfl⟩ := emits_cons hem
     obtain ⟨rfl, rfl, rfl⟩ := emits_nil he'
@@ -742,9 +744,10 @@ theorem semN (hH : CallH pf m seq base mj call) (n : Tree.Node) (hcl : Node.clos
       simp only [Except.ok.injEq] at hx
       subst hx
       obtain ⟨k, rfl, hmem⟩ := body_jump t hb
+      have hk256 : Mds.u16 (k : Int) < 256 := hfit ⟨mds_PAT, Mds.u16 (k : Int)⟩ (by simp) rfl
       obtain ⟨hon, hoff⟩ := he.timeless (by rw [t]; decide) (by rw [t]; decide) (by rw [t]; decide)
       rw [prepR_timeless r e (by rw [t]; decide) hoff]
-      obtain ⟨T, ⟨tg, htg, hsub⟩, hT⟩ := hH d e its k hk hits hmem
+      obtain ⟨T, ⟨tg, htg, hsub⟩, hT⟩ := hH d e its k hk (he.2.2.2.2 hk) hits hmem hk256
       refine ⟨⟨evNodes (flushL r) ++ [.call (Mds.u16 (k : Int)) T], ?_, ?_, ?_, fun _ => ?_, ?_, ?_⟩, by omega, rfl⟩
       · rw [flatL_append, flatL_evNodes]; simp [flatL, Codec.Node.flat]
       · rw [linL_append, linL_evNodes _ (lin_flushL r hr)]; simp [linL, Codec.Node.lin]
@@ -760,7 +763,7 @@ theorem semN (hH : CallH pf m seq base mj call) (n : Tree.Node) (hcl : Node.clos
       obtain ⟨hl, hlt, htk⟩ := leaf_sem nS nM pf m e he.1 he.2.1 hk r hr hb
       exact ⟨SemOK.leaves nS nM pf seq base mj _ hl (by simpa [itemsTicks] using htk), hlt, rfl⟩
   | .brk e, hcl, hev, hexp, hem =>
-    have he : EvOK e := hev e (by simp [flattenN])
+    have he : EvOK Q e := hev e (by simp [flattenN])
     have t := kind_loopBreak hcl
     cases il with
     | false => simp [expN] at hexp
@@ -785,12 +788,12 @@ theorem semN (hH : CallH pf m seq base mj call) (n : Tree.Node) (hcl : Node.clos
   | .openLoop ls b, hcl, _, _, _ => exact absurd hcl (by simp [Node.closed])
   | .loop ls body le, hcl, hev, hexp, hem =>
     obtain ⟨hlsk, hbcl, hlek⟩ := hcl
-    have hls : EvOK ls := hev ls (by simp [flattenN])
-    have hle : EvOK le := hev le (by simp [flattenN])
-    have hbody : ∀ e ∈ flattenL body, EvOK e := fun e he => hev e (by simp [flattenN, he])
+    have hls : EvOK Q ls := hev ls (by simp [flattenN])
+    have hle : EvOK Q le := hev le (by simp [flattenN])
+    have hbody : ∀ e ∈ flattenL body, EvOK Q e := fun e he => hev e (by simp [flattenN, he])
     have tls := kind_loopStart hlsk
     have tle := kind_loopEnd hlek
-    obtain ⟨hp0, hp1⟩ := hle.2.2.2 tle
+    obtain ⟨hp0, hp1⟩ := hle.2.2.2.1 tle
     obtain ⟨_, hlsoff⟩ := hls.timeless (by rw [tls]; decide) (by rw [tls]; decide) (by rw [tls]; decide)
     obtain ⟨hleon, hleoff⟩ := hle.timeless (by rw [tle]; decide) (by rw [tle]; decide) (by rw [tle]; decide)
     -- the event list
@@ -823,6 +826,7 @@ theorem semN (hH : CallH pf m seq base mj call) (n : Tree.Node) (hcl : Node.clos
         -- no break: the body is one piece
         obtain ⟨msB, rB, gB, msE, heB, heE, rfl⟩ := emits_append _ _ he0
         obtain ⟨sB, hrB, hgB⟩ := semL hH body hbcl hbody (d + 1) true full hfullR 0 g msB rB gB (by omega) heB
+          (fun ev hev => hfit ev (by simp [hev]))
         obtain rfl : g = gB := hgB.symm
         rw [hb] at sB
         obtain ⟨bE, msE', hbE, heE', rfl⟩ := emits_cons heE
@@ -849,9 +853,9 @@ theorem semN (hH : CallH pf m seq base mj call) (n : Tree.Node) (hcl : Node.clos
         have hebk : eb.kind = .loopBreak := hcl'.2.1
         have hbcl' : closedL b := hcl'.2.2
         have teb := kind_loopBreak hebk
-        have heb : EvOK eb := hbody eb (by rw [hflat]; simp)
-        have hea : ∀ e ∈ flattenL a, EvOK e := fun e he => hbody e (by rw [hflat]; simp [he])
-        have heb' : ∀ e ∈ flattenL b, EvOK e := fun e he => hbody e (by rw [hflat]; simp [he])
+        have heb : EvOK Q eb := hbody eb (by rw [hflat]; simp)
+        have hea : ∀ e ∈ flattenL a, EvOK Q e := fun e he => hbody e (by rw [hflat]; simp [he])
+        have heb' : ∀ e ∈ flattenL b, EvOK Q e := fun e he => hbody e (by rw [hflat]; simp [he])
         obtain ⟨hebon, heboff⟩ := heb.timeless (by rw [teb]; decide) (by rw [teb]; decide) (by rw [teb]; decide)
         have hieb : itTicks pf (item eb) = [] := itTicks_bracket pf (item eb) (.inr (.inl teb)) hebon heboff
         -- expansion of the body
@@ -868,6 +872,7 @@ theorem semN (hH : CallH pf m seq base mj call) (n : Tree.Node) (hcl : Node.clos
         rw [hmap2] at he0
         obtain ⟨msA, rA, gA, ms1, heA, he1, rfl⟩ := emits_append _ _ he0
         obtain ⟨sA, hrA, hgA⟩ := semL hH a hacl hea (d + 1) true ia hia 0 g msA rA gA (by omega) heA
+          (fun ev hev => hfit ev (by simp [hev]))
         obtain rfl : g = gA := hgA.symm
         rw [hab] at sA
         obtain ⟨bb, ms2, hbb, he2, rfl⟩ := emits_cons he1
@@ -877,6 +882,7 @@ theorem semN (hH : CallH pf m seq base mj call) (n : Tree.Node) (hcl : Node.clos
         simp only at he2
         obtain ⟨msB, rB, gB, msE, heB, heE, rfl⟩ := emits_append _ _ he2
         obtain ⟨sB, hrB, hgB⟩ := semL hH b hbcl' heb' (d + 1) true ib hib 0 g msB rB gB (by omega) heB
+          (fun ev hev => hfit ev (by simp [hev]))
         obtain rfl : g = gB := hgB.symm
         obtain ⟨bE, msE', hbE, heE', rfl⟩ := emits_cons heE
         obtain ⟨rfl, rfl, rfl⟩ := emits_nil heE'
@@ -902,10 +908,11 @@ decreasing_by
   all_goals (try subst_vars)
   all_goals simp [flattenN, Tree.flattenL_append, Tree.flattenL_cons]
   all_goals omega
-theorem semL (hH : CallH pf m seq base mj call) (f : List Tree.Node) (hcl : closedL f) (hev : ∀ e ∈ flattenL f, EvOK e)
+theorem semL (hH : CallH pf m seq base mj call Q) (f : List Tree.Node) (hcl : closedL f) (hev : ∀ e ∈ flattenL f, EvOK Q e)
     (d : Nat) (il : Bool) (items : List Item) (hexp : Expand.expL call d il f = .ok items)
     (r : Nat) (g : Bool) (ms : List MEv) (r' : Nat) (g' : Bool) (hr : r < 65536)
-    (hem : Emits m r g ((flattenL f).map fun e => tItem e e) ms r' g') :
+    (hem : Emits m r g ((flattenL f).map fun e => tItem e e) ms r' g')
+    (hfit : ∀ ev ∈ ms, ev.type = mds_PAT → ev.arg < 256) :
     SemOK nS nM pf seq base mj (hasTopBreak f) items r ms r' ∧ r' < 65536 ∧ g' = g := by
   match f, hcl, hev, hexp, hem with
   | [], _, _, hexp, hem =>
@@ -921,8 +928,10 @@ theorem semL (hH : CallH pf m seq base mj call) (f : List Tree.Node) (hcl : clos
     rw [Tree.flattenL_cons, List.map_append] at hem
     obtain ⟨ms1, r1, g1, ms2, he1, he2, rfl⟩ := emits_append _ _ hem
     obtain ⟨s1, hr1, hg1⟩ := semN hH n hcl.1 (fun e he => hev e (by rw [Tree.flattenL_cons]; simp [he])) d il x hx r g ms1 r1 g1 hr he1
+      (fun ev hev => hfit ev (by simp [hev]))
     obtain rfl : g = g1 := hg1.symm
     obtain ⟨s2, hr2, hg2⟩ := semL hH ns hcl.2 (fun e he => hev e (by rw [Tree.flattenL_cons]; simp [he])) d il y hy r1 g ms2 r' g' hr1 he2
+      (fun ev hev => hfit ev (by simp [hev]))
     obtain rfl : g = g' := hg2.symm
     rw [hasTopBreak_cons]
     exact ⟨s1.append nS nM pf seq base mj s2, hr2, rfl⟩
